@@ -45,5 +45,9 @@ fn supertraits(#[allow(unused_variables)] traits: &[Trait]) -> Vec<proc_macro2::
         supertraits.push(quote! {::core::cmp::PartialOrd});
     };
 
+    // without the `PartialOrd` feature, PartialOrd can never be educed alongside
+    #[cfg(not(feature = "PartialOrd"))]
+    supertraits.push(quote! {::core::cmp::PartialOrd});
+
     supertraits
 }
